@@ -214,6 +214,33 @@ func (s *stripDelIterator) Next() bool {
 		if IsDelFlag(v.PureData.Value) {
 			continue
 		}
+		// an empty version is the read-set record of a key that was never
+		// written: it is not a row of the bucket
+		if len(v.RefTxid) == 0 {
+			continue
+		}
+		return true
+	}
+	return false
+}
+
+// stripDelMarkIterator strips delete markers only: it sits above the writes of
+// the current execution, which carry no version yet
+type stripDelMarkIterator struct {
+	ledger.XMIterator
+}
+
+func newStripDelMarkIterator(xmiter ledger.XMIterator) ledger.XMIterator {
+	return &stripDelMarkIterator{
+		XMIterator: xmiter,
+	}
+}
+
+func (s *stripDelMarkIterator) Next() bool {
+	for s.XMIterator.Next() {
+		if IsDelFlag(s.Value().PureData.Value) {
+			continue
+		}
 		return true
 	}
 	return false
